@@ -109,6 +109,8 @@ PROPS["C15"] = {
          "params": {"quick": {"CHUNK": 1, "ENC": 2, "B": 2, "C": 1, "S": 2}, "thorough": {"CHUNK": 1, "ENC": 3, "B": 2, "C": 2, "S": 2}}},
         {"name": "decompress_arbitrary", "timeout_s": {"quick": 600, "thorough": 2400}, "pkg": "region", "entry": "VerifDecompressArbitrary", "reach": ["accepted"],
          "params": {"quick": {"ENC": 2, "N": 14}, "thorough": {"ENC": 2, "N": 18}}},
+        {"name": "decompress_twice", "pkg": "region", "entry": "VerifDecompressTwice", "reach": ["twice"],
+         "params": {"quick": {"S": 3}, "thorough": {"S": 5}}},
     ],
 }
 
@@ -253,8 +255,8 @@ PROPS["C18"] = {
     "assumptions": ["responses are processed by receive() one at a time (single reader goroutine)",
                     "proto.Unmarshal is stubbed by the harness' decoding seam (native replay uses the real decoder on hand-encoded frames)"],
     "jobs": [
-        {"name": "inflight", "pkg": "region", "entry": "VerifInFlight", "stubs": RECV_STUBS, "reach": ["idle", "waiting"],
-         "params": {"quick": {"CALLS": 2}, "thorough": {"CALLS": 3}}},
+        {"name": "inflight", "timeout_s": {"quick": 600, "thorough": 3000}, "pkg": "region", "entry": "VerifInFlight", "stubs": RECV_STUBS, "reach": ["idle", "waiting"],
+         "params": {"quick": {"CALLS": 2, "protoMax": 1, "protoFixed": 1, "TIMEND": 1}, "thorough": {"CALLS": 3, "protoMax": 1, "protoFixed": 1, "TIMEND": 1}}},
         {"name": "inflight_concurrent", "pkg": "region", "entry": "VerifInFlightConcurrent", "stubs": RECV_STUBS, "reach": ["waiting"],
          "preempts": {"quick": 2, "thorough": 3}, "params": {"quick": {}, "thorough": {}}},
     ],
@@ -299,6 +301,8 @@ PROPS["C02"] = {
         {"name": "multi_correlation", "pkg": "region", "entry": "VerifMultiCorrelation", "stubs": RECV_STUBS, "reach": ["correlated"], "native_retries": 10,
          "params": {"quick": {"CALLS": 2, "CELLS": 1, "protoMax": 1, "protoFixed": 1}, "thorough": {"CALLS": 3, "CELLS": 2, "protoMax": 1, "protoFixed": 1}}},
         {"name": "compressed_cells", "pkg": "region", "entry": "VerifCompressedCells", "stubs": RECV_STUBS, "reach": ["held"], "native_retries": 5,
+         "params": {"quick": {"protoMax": 1, "protoFixed": 1}, "thorough": {"protoMax": 1, "protoFixed": 1}}},
+        {"name": "multi_not_shared", "pkg": "region", "entry": "VerifMultiNotShared", "stubs": RECV_STUBS, "reach": ["distinct"], "native_retries": 3,
          "params": {"quick": {"protoMax": 1, "protoFixed": 1}, "thorough": {"protoMax": 1, "protoFixed": 1}}},
         {"name": "concurrent_register", "pkg": "region", "entry": "VerifConcurrentRegister", "reach": ["registered"],
          "preempts": {"quick": 2, "thorough": 3}, "params": {"quick": {}, "thorough": {}}},
